@@ -288,6 +288,17 @@ def greedy_run(case):
     model = Kauri(kernel="precomputed", random_state=seed, **params)
     if params.get("max_depth") == 2:      # estimator-protocol route on part of the grid: same hyperparameters through set_params
         model = Kauri().set_params(kernel="precomputed", random_state=seed, **params)
+    if (params.get("max_features") or 0) >= 2 and d >= 2:
+        # history: the same object first met NARROWER data than max_features (the documented clip to the number of features applies to that
+        # fit only); the later fit on the full data draws max_features features again
+        import warnings
+        with warnings.catch_warnings():
+            warnings.simplefilter("ignore")
+            try:
+                model.fit(X[:, :1], Kmat)
+                model.score(X[:, :1], Kmat)
+            except Exception:  # noqa
+                pass
     if params.get("max_features") == 1 or kernel_kind == "indef":
         # history: the estimator went through the documented fallback path first (precomputed kernel forgotten: warning + linear kernel)
         import warnings
@@ -322,7 +333,13 @@ def greedy_run(case):
 
     def explorable():
         return sorted(l for l, dep in leaf_depth.items() if dep < mdepth and int(rZ[l].sum()) >= mss)
+    want_feats = min(d, max(params.get("max_features") or d, 1))
     for (leaves, Y, Z, nc, K_max, nl, ml, feats, s) in calls:
+        fl = sorted(int(f) for f in feats)
+        if len(fl) != want_feats or len(set(fl)) != len(fl) or (fl and (fl[0] < 0 or fl[-1] >= d)):
+            vs.append(violation("drawn_features_differ_from_max_features", dict(ctx, call_index=stats["calls"], drawn=fl, max_features=params.get("max_features"), n_features=d),
+                                n_clusters=nc, K_max=K_max, shadow=False))
+            break
         if not diverged and sorted(int(l) for l in leaves) != explorable():
             vs.append(violation("explorable_leaves_differ_from_the_structural_limits",
                                 dict(ctx, call_index=stats["calls"], passed=sorted(int(l) for l in leaves), expected=explorable(),
@@ -431,6 +448,11 @@ def explorers(tier, seed):
         for kern in ("linear", "rbf", "indef", "lin_small", "rbf_big"):
             for p in (grid if thorough else grid[::3]):
                 c3.append((spec, kern, p, seed))
+    for spec in list(row_multisets(4, 2))[::5] + [("generic", 6, 2), ("generic", 7, 2)]:
+        for kern in ("linear", "rbf", "indef"):
+            for mc in (3, 4):
+                for mf in (2, 3):
+                    c3.append((spec, kern, dict(max_clusters=mc, min_samples_leaf=1, min_samples_split=2, max_features=mf, max_leaves=None, max_depth=None), seed))
     for kind in ("rows_ulp", "rows_huge"):
         for _, rows in list(row_multisets(4, 1)) + list(row_multisets(5, 1)) + list(row_multisets(4, 2))[::9]:
             for kern in ("psd", "indef"):
